@@ -1,6 +1,7 @@
 //! `nvh` — verification harness for narwhal: translator + correspondence suites.
 //! Usage: nvh <suite> --seed N --cases N --out FILE [--steps N] [--only CASE]
 mod oracle;
+mod reader_suite;
 mod rng;
 mod srv;
 mod srv_suite;
@@ -133,6 +134,24 @@ fn main() {
   let a = parse_args();
   match a.suite.as_str() {
     "srv" => suite_srv(&a),
+    "reader" => {
+      let (rt, local) = local_rt();
+      let exhaustive = a.extra.get("exhaustive").is_some_and(|v| v == "1");
+      let (seed, cases) = (a.seed, a.cases);
+      let out = local.block_on(&rt, async move { reader_suite::run_suite(seed, cases, exhaustive).await });
+      let mut t = out.transcript;
+      for f in &out.seg_dependent {
+        t.push_str(&format!("oracle-failure case=0 {f}\n"));
+      }
+      t.push_str(&format!(
+        "stats {{\"suite\":\"reader\",\"seed\":{},\"streams\":{},\"runs\":{},\"oracle_failures\":{}}}\n",
+        a.seed,
+        out.streams,
+        out.runs,
+        out.seg_dependent.len()
+      ));
+      std::fs::write(&a.out, t).expect("write transcript");
+    },
     "translate" => {
       let dir = a.extra.get("lean").cloned().unwrap_or_else(|| "/verif/lean".into());
       for (f, ch) in translate::run(&dir) {
